@@ -9,11 +9,13 @@
 (* both collect T partial signatures - for every (N, T) the generation     *)
 (* accepts.  Design mutants: ThresholdMode (geHalf: T = N/2 accepted),     *)
 (* SplitHistory (an instance keeps separate records per endpoint, so a     *)
-(* duty sent over the other endpoint does not see the first one).          *)
+(* duty sent over the other endpoint does not see the first one),          *)
+(* OldResets (a request for an OLD duty O - below everything on record -    *)
+(* wipes the instance's record instead of being refused without effect).   *)
 (***************************************************************************)
 EXTENDS Integers, FiniteSets, TLC, Json
 
-CONSTANTS N, T, ThresholdMode, SplitHistory, OutFile
+CONSTANTS N, T, ThresholdMode, SplitHistory, OldResets, OutFile
 
 I == 1 .. N
 Duties == {"A", "B"}
@@ -23,10 +25,11 @@ Accepted == CASE ThresholdMode = "gtHalf" -> 2 * T > N /\ T <= N
               [] ThresholdMode = "geHalf" -> 2 * T >= N /\ T <= N
               [] OTHER -> T >= 1 /\ T <= N
 
-VARIABLES signed    \* [I -> SUBSET (Duties \X Endpoints)]  what each instance has given a partial signature for
-vars == <<signed>>
+VARIABLES signed,   \* [I -> SUBSET (Duties \X Endpoints)]  what each instance has ON RECORD
+          given     \* [I -> SUBSET (Duties \X Endpoints)]  the partial signatures each instance has given (history)
+vars == <<signed, given>>
 
-Init == signed = [i \in I |-> {}]
+Init == signed = [i \in I |-> {}] /\ given = [i \in I |-> {}]
 
 \* the record an instance consults for a request over endpoint e
 Seen(i, e) == IF SplitHistory THEN {x \in signed[i] : x[2] = e} ELSE signed[i]
@@ -34,13 +37,21 @@ Request(i, d, e) ==
     /\ Accepted
     /\ \A x \in Seen(i, e) : x[1] # Other(d)       \* refused if the conflicting duty is on record
     /\ signed' = [signed EXCEPT ![i] = @ \cup {<<d, e>>}]
-Next == \E i \in I, d \in Duties, e \in Endpoints : Request(i, d, e)
+    /\ given' = [given EXCEPT ![i] = @ \cup {<<d, e>>}]
+\* an old duty (lower than anything the instance has on record): refused, and it leaves the record alone
+RequestOld(i) ==
+    /\ Accepted
+    /\ signed' = IF OldResets THEN [signed EXCEPT ![i] = {}] ELSE signed
+    /\ UNCHANGED given
+Next == \/ \E i \in I, d \in Duties, e \in Endpoints : Request(i, d, e)
+        \/ \E i \in I : RequestOld(i)
 Spec == Init /\ [][Next]_vars
 
-Partials(d) == {i \in I : \E e \in Endpoints : <<d, e>> \in signed[i]}
+\* partial signatures once given stay given (the record may be wiped by a mutant, the signature is out)
+Partials(d) == {i \in I : \E e \in Endpoints : <<d, e>> \in given[i]}
 NotBothThreshold == ~(Cardinality(Partials("A")) >= T /\ Cardinality(Partials("B")) >= T)
 
-\* every routing of the two duties: per instance one of five request orders (used for the replay)
-Orders == {"AB", "BA", "A", "B", "-"}
+\* every routing of the two duties: per instance one of seven request orders (O = an old duty in between) (used for the replay)
+Orders == {"AB", "BA", "A", "B", "-", "AOB", "BOA"}
 Routings == [I -> Orders]
 =============================================================================
